@@ -1278,7 +1278,7 @@ def real_inputs(ck, tier, rng):
     counter = [0]
     def bib(t):
         return lambda: D.parse_string(t, 'bibtex')
-    def bstrun(t, bibtext=None):
+    def bstrun(t, bibtext=None, cites=('key1', 'nokey')):
         def f():
             from pybtex.bibtex.interpreter import Interpreter
             from pybtex.database.input.bibtex import Parser
@@ -1288,7 +1288,7 @@ def real_inputs(ck, tier, rng):
                 p = os.path.join(tmp, 'b%d.bib' % counter[0])
                 open(p, 'w', encoding='utf-8').write(bibtext)
                 files = [p]
-            Interpreter(Parser, 'utf-8').run(BSTM.parse_string(t), ['key1', 'nokey'] if bibtext is not None else [], files, min_crossrefs=2)
+            Interpreter(Parser, 'utf-8').run(BSTM.parse_string(t), list(cites) if bibtext is not None else [], files, min_crossrefs=2)
         return f
     def aux(t):
         counter[0] += 1
@@ -1385,6 +1385,26 @@ def real_inputs(ck, tier, rng):
         d.add_entry('K', Entry('misc'))
         d.add_entry('k', Entry('misc'))
     yield ('add_entry twice', addtwice)
+    yield ('bst call.type$ without a function for the entry type',
+           bstrun('ENTRY {title}{}{} FUNCTION {default.type} { "d" write$ newline$ } READ ITERATE {call.type$}', BIB, cites=('key1', 'key2')))
+    def external_bibtex():
+        # pybtex.bibtex.runner.run_bibtex reports the output of a failing external `bibtex`;
+        # a stand-in executable that fails after writing the .bbl is put first on PATH
+        from pybtex.bibtex import runner
+        from pybtex.database import BibliographyData, Entry as E_
+        bindir = os.path.join(tmp, 'bin')
+        os.makedirs(bindir, exist_ok=True)
+        exe = os.path.join(bindir, 'bibtex')
+        with open(exe, 'w') as f:
+            f.write('#!/bin/sh\necho "I found no style file"\necho x > test.bbl\nexit 2\n')
+        os.chmod(exe, 0o755)
+        old = os.environ.get('PATH', '')
+        os.environ['PATH'] = bindir + os.pathsep + old
+        try:
+            return runner.run_bibtex('ENTRY{}{}{}', BibliographyData({'k': E_('misc', {'title': 'T'})}))
+        finally:
+            os.environ['PATH'] = old
+    yield ('external bibtex fails', external_bibtex)
     def badxref():
         d = D.parse_string('@a{k, crossref={zz}, t={x}}\n@a{k2, crossref={zz}}', 'bibtex')
         return d.add_extra_citations(['k', 'k2'], 2)
@@ -1502,7 +1522,11 @@ def extra_checks(ck, tier, rng):
                 seen.add(sig)
                 fails.append((label, msg, True))
     covered = [s for s in sites if any(r == s[0] and s[1] <= l <= s[2] for (r, l) in reached)]
-    yield {'name': 'real_inputs_three_modes', 'evaluations': n, 'failures': fails[:6],
+    for s_ in sites:
+        if s_ not in covered:
+            # fail closed: the enumeration claims every site; a site no input reaches is not covered
+            fails.append(('%s:%d %s' % (s_[0], s_[1], s_[3]), 'this report/raise site is not reached by any input of the check, so "every problem pybtex detects" is not exercised for it (add an input to real_inputs)', False))
+    yield {'name': 'real_inputs_three_modes', 'evaluations': n, 'failures': fails[:8],
            'info': {'sites_total': len(sites), 'sites_raised_from_in_this_run': len(covered),
                     'sites_not_reached': ['%s:%d %s' % (s[0], s[1], s[3]) for s in sites if s not in covered]}}
     shutil.rmtree(os.path.join(ck.rundir, 'inputs'), ignore_errors=True)
